@@ -32,6 +32,8 @@ enum Act {
     ForwardCut(u64),
     ForwardWsClose(u64),
     ForwardBlackhole(u64),
+    /// forward for d1 ms, then swallow what the client sends (its stream request stays unanswered) for d2 ms, then cut the connection
+    ForwardSwallowCut(u64, u64),
     Healthy,
 }
 
@@ -82,12 +84,12 @@ async fn gate(listener: TcpListener, server: SocketAddr, script: Vec<Act>, log: 
                     c.write_all(b"HTTP/1.1 404 Not Found\r\ncontent-length: 0\r\n\r\n").await.ok();
                     c.shutdown().await.ok();
                 }
-                Act::ForwardCut(_) | Act::ForwardWsClose(_) | Act::ForwardBlackhole(_) | Act::Healthy => {
+                Act::ForwardCut(_) | Act::ForwardWsClose(_) | Act::ForwardBlackhole(_) | Act::ForwardSwallowCut(..) | Act::Healthy => {
                     let Ok(mut s) = TcpStream::connect(server).await else { return };
                     c.set_nodelay(true).ok();
                     s.set_nodelay(true).ok();
                     let limit = match act {
-                        Act::ForwardCut(d) | Act::ForwardWsClose(d) | Act::ForwardBlackhole(d) => Some(Duration::from_millis(d)),
+                        Act::ForwardCut(d) | Act::ForwardWsClose(d) | Act::ForwardBlackhole(d) | Act::ForwardSwallowCut(d, _) => Some(Duration::from_millis(d)),
                         _ => None,
                     };
                     let deadline = limit.map(|d| tokio::time::Instant::now() + d);
@@ -101,6 +103,16 @@ async fn gate(listener: TcpListener, server: SocketAddr, script: Vec<Act>, log: 
                             r = cr.read(&mut b1) => match r { Ok(n) if n > 0 => { if sw.write_all(&b1[..n]).await.is_err() { break; } } _ => break },
                             r = sr.read(&mut b2) => match r { Ok(n) if n > 0 => { if cw.write_all(&b2[..n]).await.is_err() { break; } } _ => break },
                         }
+                    }
+                    if let Act::ForwardSwallowCut(_, d2) = act {
+                        let _ = tokio::time::timeout(Duration::from_millis(d2), async {
+                            loop {
+                                match cr.read(&mut b1).await {
+                                    Ok(0) | Err(_) => break,
+                                    Ok(_) => {}
+                                }
+                            }
+                        }).await;
                     }
                     mark_end(&log2);
                     match act {
@@ -353,6 +365,8 @@ fn scenarios(rng: &mut Rng64, thorough: bool) -> Vec<Scenario> {
         Scenario { name: "cut-resets-backoff", script: vec![Act::Rst, Act::Rst, Act::ForwardCut(300), Act::Rst, Act::Healthy], max_retry_count: 0, max_retry_interval: 800, converse_at: Some(2200), udp_after_ms: None, expect_exit: None, observe_ms: 4200 },
         Scenario { name: "orderly-close", script: vec![Act::ForwardWsClose(300), Act::Healthy], max_retry_count: 0, max_retry_interval: 400, converse_at: None, udp_after_ms: Some(900), expect_exit: None, observe_ms: 4500 },
         Scenario { name: "stream-request-timeout", script: vec![Act::ForwardBlackhole(150), Act::Healthy], max_retry_count: 0, max_retry_interval: 400, converse_at: Some(250), udp_after_ms: None, expect_exit: None, observe_ms: 4500 },
+        // the tunnel is lost while a stream request is outstanding (Connect sent, never answered): the request is served by the next connection
+        Scenario { name: "lost-with-request-outstanding", script: vec![Act::ForwardSwallowCut(200, 400), Act::Healthy], max_retry_count: 0, max_retry_interval: 400, converse_at: Some(350), udp_after_ms: None, expect_exit: None, observe_ms: 3500 },
         // a long outage in little time: 100 consecutive failures with a tiny retry cap, then the server is back
         Scenario { name: "long-outage-100", script: { let mut v = vec![Act::Rst; 100]; v.push(Act::Healthy); v }, max_retry_count: 0, max_retry_interval: 3, converse_at: Some(50), udp_after_ms: None, expect_exit: None, observe_ms: 3500 },
     ];
@@ -391,7 +405,7 @@ fn judge(st: &mut Stats, sc: &Scenario, outs: &[Outcome], seed: u64) {
         let mut k: u32 = 0; // consecutive failures so far
         for w in o.attempts.windows(2) {
             let (a, b) = (&w[0], &w[1]);
-            let succeeded = matches!(a.2, Act::ForwardCut(_) | Act::ForwardWsClose(_) | Act::ForwardBlackhole(_) | Act::Healthy);
+            let succeeded = matches!(a.2, Act::ForwardCut(_) | Act::ForwardWsClose(_) | Act::ForwardBlackhole(_) | Act::ForwardSwallowCut(..) | Act::Healthy);
             if succeeded {
                 k = 0;
             }
